@@ -423,6 +423,8 @@ impl<C: Configuration> crate::table::memo::Memo for Memo<C> {
         );
         #[cfg(not(feature = "accumulator"))]
         let acc = String::new();
+        // H7: cycle_converged flag of the revisions' extra
+        let acc = format!("{} conv={}", acc, revisions.cycle_converged() as u8);
         format!(
             "name={} has_value={} verified_at={} changed_at={} dur={} origin={} edges=[{}] final={} iter={} ccount={} heads=[{}] structs=[{}]{}",
             C::DEBUG_NAME,
